@@ -19,6 +19,7 @@ import Driver.VP8SyntaxBytes
 import Driver.VP8HeaderBytes
 import Driver.VP8LWindow
 import Driver.VP8Dec
+import Driver.C01Full
 /-
   webpdrv — line protocol: one operation per input line (`op arg arg …`), one canonical
   output line per operation.  Unknown or malformed operations answer `bad-op` (never a default).
@@ -44,7 +45,8 @@ def dispatch (line : String) : String :=
            <|> Driver.VP8SyntaxBytes.handle op args
            <|> Driver.VP8HeaderBytes.handle op args
            <|> Driver.VP8LWindow.handle op args
-           <|> Driver.VP8Dec.handle op args) with
+           <|> Driver.VP8Dec.handle op args
+           <|> Driver.C01Full.handle op args) with
     | some r => r
     | none => "bad-op"
 
